@@ -16,6 +16,7 @@ type entry struct {
 
 var registry = map[string]entry{
 	"C01": {"exploration", props.C01},
+	"C02": {"exploration", props.C02},
 	"C03": {"exploration", props.C03},
 	"C05": {"exploration", props.C05},
 	"C12": {"exploration", props.C12},
